@@ -57,7 +57,16 @@ REFINED = ["entry guards mirrored from the code and proved equivalent to the doc
            "round 5 Tie A (Props/C16Gen.lean over Gen/Scratch.lean + the new Gen/SizeGuards.lean): pow_word_base path / buffer words, "
            "pow_dword_base buffer words, max_exp_in_word shortcut / start exponent / loop step, from_chunks assert + result_len, "
            "rational to_float assert / no-scaling test / shift are REGENERATED from the Rust text and proved equal to the mirrored "
-           "definitions the driver executes"]
+           "definitions the driver executes",
+           "round 6 (after fix 43925c0): rational to_float `need_digits = precision.saturating_add(den_digits)` regenerated (usize::MAX a "
+           "parameter) and mirrored (qToFloatNeedDigits / qToFloatShift); theorem to_float_need_digits_in_usize: need_digits and shift are "
+           "machine numbers for every input and equal the exact sum whenever that fits — the former finding to_float_precision_overflow is "
+           "now a theorem; findings float_parse_exponent_overflow, to_chunks_allocates_chunk_bits, to_float_precision_overflow are `fixed:` "
+           "lines, float_precision_usize_overflow is narrowed to Context::powi (exp.rs:127,146), float_precision_isize_cast to FBig::ulp",
+           "round 6: Context::powi working precisions (`precision + guard_bits`, `precision + guard_digits`) REGENERATED from exp.rs "
+           "(Gen/SizeGuards powi_rev_precision / powi_work_precision), mirrored (fPowiRevPrecision, fPowiWorkPrecision, fPowiPrecisionFits), "
+           "proved equal, linked to C11's powiWorkPrec (powi_work_precision_is_c11s); fbig_powi_precision_fits (all p, e with "
+           "p + bit_len(e) + 192 <= usize::MAX) and fbig_powi_precision_counterexample (= the finding's class boundary usize::MAX-66/-67)"]
 FRONTIER = ["reservations only partly tied to the documentation: pow of an EVEN base with odd part > 1 (second-stage `<<` request depends "
             "on the value odd^e: `guardPow = none`, decided by correspondence); pow of a >= 3-word base (no reservation exists in the "
             "code: finding, counterexample theorem); the converse of (S1) is false in the band between reservation and result size "
@@ -132,7 +141,9 @@ THEOREMS = ["Dashu.Props.C16." + t for t in (
 
 THEOREMS += ["Dashu.Props.C16Gen." + t for t in (
     "pow_word_request_is_generated pow_dword_request_is_generated max_exp_loop_is_generated max_exp_in_word_is_generated "
-    "from_chunks_len_is_generated from_chunks_guard_is_generated to_float_assert_is_generated to_float_shift_is_generated").split()]
+    "from_chunks_len_is_generated from_chunks_guard_is_generated to_float_assert_is_generated to_float_shift_is_generated to_float_need_digits_in_usize "
+    "powi_precision_is_generated powi_work_precision_is_c11s").split()]
+THEOREMS += ["Dashu.Props.C16.fbig_powi_precision_fits", "Dashu.Props.C16.fbig_powi_precision_counterexample"]
 
 M = 2 ** 64 - 1
 IMAX = 2 ** 63 - 1
@@ -739,6 +750,19 @@ def round5_cases(rng, tier):
             yield Case("f.shl", [a, D(5)]); yield Case("f.shr", [b, D(-5)])
             yield Case("f.with_precision", [a, D(3)]); yield Case("f.with_precision", [a, D(M)])
             yield Case("f.sum", [a, b, a]); yield Case("f.product", [a, b])
+    # round 6: Context::powi working precisions (exp.rs:127 `precision + 2*bit_len(precision)` for a negative exponent, exp.rs:146
+    # `precision + bit_len(exp) + bit_len(precision)`): the context precision on both sides of `… = usize::MAX`, for exponents of
+    # several bit lengths (mirrored: Model/Panic/Guards5 fPowiPrecisionFits; base 1 * B^0 so that huge exponents stay exact)
+    for base in (2, 10):
+        for e in (2, 3, 5, 255, 2 ** 32, 2 ** 64 - 1, 2 ** 70):
+            edge = M - 64 - e.bit_length()               # largest precision whose working precision fits (bit_len(p) = 64)
+            for pr in (edge - 1, edge, edge + 1, edge + 2):
+                yield Case("f.powi", [F(base, 1, 0, pr), hx(e)])
+                if e <= 5:
+                    yield Case("f.powi", [F(base, 3, 0, pr), hx(e)])
+        for e in (-1, -2, -5):
+            for pr in (M - 129, M - 128, M - 127, M - 128 - 64 - (-e).bit_length(), M - 128 - 64 - (-e).bit_length() + 1):
+                yield Case("f.powi", [F(base, 1, 0, pr), hx(e)])
     # exp / exp_m1 / ln_1p of arguments with a hugely NEGATIVE exponent (result 1, x, x): cost must not follow |exponent|
     for (base, ok_e, bad_e) in ((2, (-2 ** 20, -2 ** 30), (-2 ** 36, -2 ** 40, -2 ** 61)), (10, (-2 ** 16, -2 ** 20), (-2 ** 32, -2 ** 40, -2 ** 61))):
         for e in ok_e + bad_e:
@@ -816,12 +840,37 @@ def base_cases(rng, tier):
     yield from round5_cases(rng, tier)
 
 
+def _expected_slow(c):
+    """cases that are known / likely to burn the per-case CPU limit (the `hang` findings, the long-limit `L/` stream, pow of a
+    >= 3-word base towards an impossible size, exp of arguments with a hugely negative exponent)"""
+    try:
+        a = c.args
+        if c.op.startswith("L/"):
+            return True
+        if c.op in ("q.nearest", "q.next_up", "q.next_down"):
+            return _I(a[3]) >= 2 ** 32
+        if c.op == "f.ln":
+            f = _F(a[0])
+            return f["exp"] >= 2 ** 13 or f["exp"] <= -2 ** 20
+        if c.op in ("u.pow", "i.pow"):
+            return abs(_I(a[0])) >= 2 ** 128 and _I(a[1]) >= 2 ** 30
+        if c.op in ("f.exp", "f.exp_m1"):
+            return _F(a[0])["exp"] <= -2 ** 26
+    except Exception:
+        pass
+    return False
+
+
 def generate(rng, tier):
     seen = set()
     cases = []
     for c in base_cases(rng, tier):
         if c.key() not in seen:
             seen.add(c.key()); cases.append(c)
+    # round 6 (thorough-tier budget): ORDER only — the shards are filled round-robin (case index mod JOBS), so the slow cases go
+    # first, consecutively: they land on different shards instead of queueing up behind each other on one worker
+    slow = [c for c in cases if _expected_slow(c)]
+    cases = slow + [c for c in cases if not _expected_slow(c)]
     yield from cases
     if tier == "thorough" and release_exe_available():
         for c in cases:
@@ -935,33 +984,6 @@ def float_exponent_unchecked(args, impl, model):
     return model == "panic ExponentOverflow" and (impl == "ok" or "with_overflow" in impl)
 
 
-def _parse_overflows(s, base):
-    """strings accepted by from_str_native whose exponent arithmetic leaves isize: scale - fraction_digits < isize::MIN
-    or scale + trailing_zero_digits(significand) > isize::MAX"""
-    import re
-    m = re.fullmatch(r"[+-]?([0-9_]*)(?:\.([0-9_]*))?[eE@]([+-]?[0-9]+)", s)
-    if not m or base != 10:
-        return False
-    ip, fp, sc = m.group(1) or "", m.group(2) or "", int(m.group(3))
-    if not (IMIN <= sc <= IMAX):
-        return False
-    fd = len(fp.replace("_", ""))
-    digits = (ip + fp).replace("_", "")
-    if not digits.strip("0"):
-        return False
-    e = sc - (fd if fp.replace("_", "").strip("0") else 0)
-    if e < IMIN:
-        return True
-    sig = (ip + (fp if fp.replace("_", "").strip("0") else "")).replace("_", "")
-    tz = len(sig) - len(sig.rstrip("0"))
-    return e + tz > IMAX
-
-
-@_kf
-def float_parse_exponent_overflow(args, impl, model):
-    return model == "ok" and "with_overflow" in impl and _parse_overflows(_str(args[0]), _F(args[1])["base"])
-
-
 @_kf
 def exp_m1_negative_huge(args, impl, model):
     f = _F(args[0])
@@ -1003,12 +1025,6 @@ def from_chunks_size_arithmetic(args, impl, model):
     k = _I(args[0]); n = len(args) - 1
     return n >= 2 and k * (n - 1) >= 2 ** 58 and model in ("panic AllocTooMuch", "panic OutOfMemory") and \
         ("convert.rs" in impl or "add.rs" in impl or "buffer.rs:58" in impl or (model == "panic OutOfMemory" and impl == "panic AllocTooMuch"))
-
-
-@_kf
-def to_chunks_allocates_chunk_bits(args, impl, model):
-    return model == "ok" and _I(args[1]) >= 2 ** 38 and _I(args[0]) >= 2 ** 128 and \
-        (impl in ("panic OutOfMemory", "panic AllocTooMuch") or "buffer.rs:58" in impl)
 
 
 @_kf
@@ -1056,55 +1072,46 @@ def pow_dword_estimate(args, impl, model):
     return model == "panic OutOfMemory" and impl == "panic AllocTooMuch" and 2 ** 64 <= abs(_I(args[0])) < 2 ** 128 and 2 * _I(args[1]) > (2 ** 64 - 1) // 64
 
 
-def _ilog(b, n):
-    k = 0
-    while n >= b:
-        n //= b; k += 1
-    return k
-
-
-def _stored_den(args):
-    import math
-    n, d, kind = _I(args[0]), _I(args[1]), args[2]
-    if n == 0:
-        return 1
-    g = math.gcd(abs(n), d) if kind == "k:R" else 2 ** min((abs(n) & -abs(n)).bit_length() - 1, (d & -d).bit_length() - 1)
-    return d // g
-
-
-@_kf
-def to_float_precision_overflow(args, impl, model):
-    # precision + floor(log_B(stored denominator)) > usize::MAX: debug: overflow panic at dashu_float.rs:122; release: wraps
-    prec, base = _I(args[3]), _I(args[4])
-    over = _I(args[0]) != 0 and prec + _ilog(base, _stored_den(args)) > M
-    return over and (("dashu_float.rs:122" in impl and "overflow" in impl) or (impl == "ok" and model.startswith("panic")))
-
-
 @_kf
 def to_float_exact_huge_precision(args, impl, model):
     # a quotient that terminates in the base (documented: returns) is still scaled by B^(precision + den_digits - num_digits)
     return model == "ok" and _I(args[3]) >= 2 ** 38 and _I(args[0]) != 0 and impl in ("panic AllocTooMuch", "panic OutOfMemory")
 
 
+def _powi_precision_overflows(prec, e):
+    """Context::powi (float/src/exp.rs:127,146): `self.precision + guard` leaves usize; mirror of Model/Panic/Guards5.lean
+    fPowiPrecisionFits (negated)"""
+    if prec == 0:
+        return False
+    if e < 0:
+        g = 2 * prec.bit_length()
+        if prec + g > M:
+            return True
+        prec += g; e = -e
+    if e <= 1:
+        return False          # the shortcuts `exp == 0`, `exp == 1` return before line 146
+    return prec + e.bit_length() + prec.bit_length() > M
+
+
 @_kf
 def float_precision_usize_overflow(args, impl, model):
-    # the context precision (a usize) enters `2 * precision`, `3 * precision`, `precision + 1`, `precision + guard_digits`
-    # unchecked: debug builds panic with an arithmetic overflow although the (exact) result exists
-    prec = max(_F(a)["prec"] for a in args if a.startswith("f:"))
-    site = any(f in impl for f in ("float/src/mul.rs", "float/src/add.rs", "float/src/exp.rs"))
-    if model == "ok" and site and "with_overflow" in impl and prec > M // 3:
+    # what is left after fix 5768014 (mul/add/div saturate): `self.precision + guard_bits` / `+ guard_digits` in Context::powi;
+    # debug builds panic with an arithmetic overflow although the result exists; release builds wrap and return — except where the
+    # reversed-context precision of a negative exponent wraps to exactly 0 (= unlimited): then the final division panics UnlimitedPrecision
+    prec, e = _F(args[0])["prec"], _I(args[1])
+    if model != "ok" or not _powi_precision_overflows(prec, e):
+        return False
+    if ("float/src/exp.rs:127" in impl or "float/src/exp.rs:146" in impl) and "add_with_overflow" in impl:
         return True
-    # release builds wrap `precision + 1` / `digits_ub + 1 + rnd_precision` (add.rs) and then ask for an alignment shift of
-    # about usize::MAX digits: the call ends in an allocation panic although the exact sum is short
-    return model == "ok" and prec >= M - 200 and impl in ("panic AllocTooMuch", "panic OutOfMemory")
+    return impl == "panic UnlimitedPrecision" and e < 0 and prec + 2 * prec.bit_length() == M + 1
 
 
 @_kf
 def float_precision_isize_cast(args, impl, model):
-    # `precision as isize` in FBig::ulp (fbig.rs:400-402) and in repr_cmp (cmp.rs:92,95): precisions >= 2^63 wrap to a negative
-    # isize, precisions near 2^63 overflow the unchecked isize addition / subtraction
-    prec = max(_F(a)["prec"] for a in args if a.startswith("f:"))
-    site = ("float/src/fbig.rs" in impl or "float/src/cmp.rs" in impl) and "with_overflow" in impl
+    # `precision as isize` in FBig::ulp (fbig.rs:402-403): precisions >= 2^63 wrap to a negative isize, precisions near 2^63
+    # overflow the unchecked isize subtraction (the same cast in repr_cmp was repaired by ee43486)
+    prec = _F(args[0])["prec"]
+    site = "float/src/fbig.rs" in impl and "with_overflow" in impl
     return prec >= 2 ** 62 and impl != model and (site or (impl == "ok" and model == "panic ExponentOverflow"))
 
 
